@@ -69,8 +69,11 @@ def modeOf : Sexp → Option Mode
     else Option.none
   | _ => Option.none
 
+/-- `mode = 1 if (is_str(mode) and mode[0].lower() == 'r') or mode == 1 else 0` (line 1215): everything that is not
+'r…' / 1 — `None` and callables included — means the left table -/
 def xorModeOf : Sexp → Option Nat
-  | .atom s => if s.startsWith "ml" then some 0 else if s.startsWith "mr" then some 1 else Option.none
+  | .atom s => if s.startsWith "ml" || s == "mN" then some 0 else if s.startsWith "mr" then some 1 else Option.none
+  | .node [.atom "mf", .atom _] => some 0
   | _ => Option.none
 
 def vtableVal (t : VTable) : Val := .dict (t.map fun c => (c.1, .list c.2))
